@@ -54,14 +54,21 @@ class ClobberTerms(Terms):
                 cn = callee_name(t)
                 if self.P is not None and isinstance(cn, str) and cn in self.P.bodies and is_pure_fn(self.P, cn):
                     continue     # a workspace function that stores through none of its parameters (peek_u8(&mut self)) changes nothing
+                if isinstance(cn, str) and cn.endswith("::next") and "std::ops::Range<" in " ".join(t["callee"].get("gargs") or []) + str(t["callee"].get("impl_self") or ""):
+                    # advancing a `for i in s..e` iterator: the bounds the yielded values lie between are those it was built with
+                    continue
                 for a in t["args"]:
                     pl = op_place(a)
                     if pl is None or len(pl) != 1:
                         continue
                     target = None
                     if pl[0] in mutref:
-                        target = mutref[pl[0]]
-                        # reborrow chain: &mut (*_r) where _r is itself a &mut local/param
+                        target = tuple(mutref[pl[0]])
+                        # reborrow chain: &mut (*_r) where _r is itself `&mut X`: what is handed over is X
+                        hops = 0
+                        while len(target) >= 2 and target[1] == "*" and target[0] in mutref and hops < 6:
+                            target = tuple(mutref[target[0]]) + target[2:]
+                            hops += 1
                     elif body.locals[pl[0]]["ty"].startswith("&mut "):
                         target = (pl[0], "*")
                     if target is None:
@@ -458,6 +465,26 @@ class Ranger:
         self.typer = Typer(P, body)
         self.length_of = length_of   # callback term -> affine length or None
 
+    def _min_len_of(self, x):
+        """lower bound on the length of a container last touched by calls (a clobbered place, or a field of one): the octets the
+        dominating pushes guarantee, from the forward dataflow min_len_out"""
+        fld = ()
+        y = x
+        while y[0] == "field":
+            fld = ("." + y[2],) + fld
+            y = y[1]
+        if y[0] != "clobbered" or not isinstance(y[2], tuple):
+            return 0
+        bbs = y[1] if isinstance(y[1], tuple) else (y[1],)
+        cont = tuple(y[2]) + fld
+        try:
+            out = min_len_out(self.P, self.body, cont)
+        except Exception:
+            return 0
+        if not out:
+            return 0
+        return min(out.get(b, 0) for b in bbs) if bbs else 0
+
     def size_of(self, t):
         """value of std::mem::size_of::<T>() call terms, from the generic argument recorded on the terminator"""
         if t[0] == "call" and t[1] in ("std::mem::size_of", "core::mem::size_of") and isinstance(t[3], int) and t[3] < len(self.body.blocks):
@@ -495,6 +522,9 @@ class Ranger:
             return (None, None)
         if k == "len":
             x = t[1]
+            ml = self._min_len_of(x)
+            if ml:
+                return (ml, ISIZE_MAX)
             if x[0] == "clobbered" and isinstance(x[1], int) and x[1] < len(self.body.blocks):
                 # the last thing that happened to the container was a push: it is not empty
                 tm = self.body.blocks[x[1]]["term"]
@@ -1529,6 +1559,167 @@ def check_field_ranges(P, D):
 
 _pure = {}
 _succ_memo = {}
+
+
+# ====================================================================== guaranteed minimum length of a byte container
+
+_GROW = {"push": 1, "push_back": 1, "push_front": 1, "insert": 1}
+_SHRINK_TO_ZERO = ("clear", "drain", "split_off", "retain", "dedup", "retain_mut", "dedup_by", "dedup_by_key", "swap_remove", "set_len", "take")
+_minlen_memo = {}
+_effect_memo = {}
+
+
+def _overlaps(a, b):
+    n = min(len(a), len(b))
+    return tuple(x for x in a[:n] if x != "*") == tuple(x for x in b[:n] if x != "*") or a[:n] == b[:n]
+
+
+def callee_growth(P, fid, param, fld, depth=0, arg_lens=()):
+    """octets a workspace function is guaranteed to append to the container reached through its parameter `param`
+    (the parameter itself when fld is None, else its field fld), or None when it may shrink it"""
+    key = (id(P), fid, param, fld, tuple(arg_lens))
+    if key in _effect_memo:
+        return _effect_memo[key]
+    _effect_memo[key] = None
+    b = P.bodies.get(fid)
+    if b is None or depth > 3:
+        return None
+    cont = (param, "*") if fld is None else (param, "*", "." + fld)
+    if not b.locals[param]["ty"].startswith("&"):
+        cont = (param,) if fld is None else (param, "." + fld)
+    out = min_len_out(P, b, cont, depth + 1, tuple(arg_lens))
+    if out is None:
+        return None
+    rets = [bb for bb, tm in b.terms() if tm["k"] == "return"]
+    if not rets:
+        return None
+    g = min(out.get(r, 0) for r in rets)
+    _effect_memo[key] = g
+    return g
+
+
+def min_len_out(P, body, cont, depth=0, arg_lens=()):
+    """forward dataflow: for every block, a lower bound on len(cont) after the block, assuming 0 at entry; None if the container is
+    handed to something whose effect is unknown in a way that could hide a reassignment of the analysis' assumptions"""
+    key = (id(P), body.id, cont, tuple(arg_lens))
+    if key in _minlen_memo:
+        return _minlen_memo[key]
+    _minlen_memo[key] = {}
+    T = cterms(P, body)
+    T.defsites()
+    cfg = cfg_of(body)
+    INF = 1 << 40
+    nblk = len(body.blocks)
+    rg = Ranger(P, body)
+
+    def effect(bb, L):
+        tm = body.blocks[bb]["term"]
+        # whole-container assignments in the block
+        for st in body.blocks[bb]["stmts"]:
+            if _overlaps(tuple(st["p"]), cont) and len(st["p"]) <= len(cont):
+                L = 0
+        if tm is None or tm["k"] != "call":
+            return L
+        hit = [t for t in T._clobbers.get(bb, []) if _overlaps(tuple(t), cont)]
+        if tm["k"] == "call" and tuple(tm["dest"]) == cont:
+            return 0
+        if not hit:
+            return L
+        n = callee_name(tm) or ""
+        last = n.rsplit("::", 1)[-1]
+        nst = len(body.blocks[bb]["stmts"])
+        std = "std::vec::Vec" in n or "alloc::vec::Vec" in n or "VecDeque" in n or "std::string::String" in n or "core::slice::" in n or "[T]" in n
+        if std and last in _GROW:
+            return L + 1
+        if std and last in ("extend_from_slice", "push_str", "extend_from_within", "append", "extend"):
+            if last == "extend_from_slice" and len(tm["args"]) == 2:
+                a = canon(T.operand(tm["args"][1], bb, nst))
+                if a[0] == "param" and a[1] - 1 < len(arg_lens):
+                    return L + arg_lens[a[1] - 1]      # a slice parameter: the caller told us how long it is at least
+                pr = Prover(P, body)
+                ls = pr.len_summary(a)
+                if ls is not None and not ls[0] and ls[1] >= 0:
+                    return L + ls[1]
+            return L
+        if std and last in ("truncate",) and len(tm["args"]) == 2:
+            a = canon(T.operand(tm["args"][1], bb, nst))
+            lo = rg.rng(a)[0]
+            return min(L, lo if lo is not None else 0)
+        if std and last in ("resize", "resize_with") and len(tm["args"]) >= 2:
+            a = canon(T.operand(tm["args"][1], bb, nst))
+            lo = rg.rng(a)[0]
+            return lo if lo is not None else 0
+        if std and last in ("pop", "remove", "pop_back", "pop_front"):
+            return max(L - 1, 0)
+        if std and last in _SHRINK_TO_ZERO:
+            return 0
+        if std and last in ("reserve", "reserve_exact", "shrink_to_fit", "as_mut_slice", "as_mut", "deref_mut", "index_mut", "iter_mut", "sort", "sort_unstable",
+                            "copy_from_slice", "fill", "reverse", "swap", "as_mut_ptr", "get_mut", "last_mut", "first_mut"):
+            return L
+        if n in P.bodies and depth < 3:
+            # which parameter carries the container?
+            for i, a in enumerate(tm["args"]):
+                pl = op_place(a)
+                if pl is None or len(pl) != 1:
+                    continue
+                tgt = None
+                for t in hit:
+                    tgt = t
+                # the argument is &mut <prefix of cont>
+                rest = None
+                arg_t = T._clobbers.get(bb, [])
+                for t in arg_t:
+                    t = tuple(t)
+                    if _overlaps(t, cont):
+                        extra = cont[len(t):]
+                        rest = extra
+                if rest is None:
+                    continue
+                fld = None
+                extra = tuple(e for e in rest if e != "*")
+                if len(extra) == 1 and extra[0].startswith("."):
+                    fld = extra[0][1:]
+                elif extra:
+                    return 0
+                lens = []
+                prl = Prover(P, body)
+                for a2 in tm["args"]:
+                    t2 = canon(T.operand(a2, bb, nst))
+                    ls2 = prl.len_summary(t2)
+                    if ls2 is not None and not ls2[0] and ls2[1] >= 0:
+                        lens.append(ls2[1])
+                    elif t2[0] == "param" and t2[1] - 1 < len(arg_lens):
+                        lens.append(arg_lens[t2[1] - 1])
+                    else:
+                        lens.append(0)
+                g = callee_growth(P, n, i + 1, fld, depth, tuple(lens))
+                if g is None:
+                    return 0
+                return L + g
+            return 0
+        return 0
+
+    out = {b: INF for b in range(nblk)}
+    inn = {b: INF for b in range(nblk)}
+    inn[0] = 0
+    work = [0]
+    steps = 0
+    while work and steps < 20 * nblk + 200:
+        steps += 1
+        b = work.pop()
+        L = inn[b]
+        if L >= INF:
+            continue
+        o = effect(b, L)
+        if o != out[b]:
+            out[b] = o
+        for s2 in cfg.succ[b]:
+            if o < inn[s2]:
+                inn[s2] = o
+                work.append(s2)
+    res = {b: (v if v < INF else 0) for b, v in out.items()}
+    _minlen_memo[key] = res
+    return res
 _PURE_STD = re.compile(r"( as std::ops::(Add|Sub|Mul|Div|Rem|Shl|Shr|BitAnd|BitOr|BitXor|Not|Neg)[<>])|(^core::num::)|( as std::cmp::Partial(Ord|Eq))|"
                        r"(^std::time::Duration::(as_|from_|new|subsec))|(::len$)|( as std::clone::Clone>::clone$)|(^std::cmp::(min|max)$)|"
                        r"( as std::convert::(From|Into)<)")
